@@ -84,7 +84,7 @@ class Mux(recorded.Module):
             g, d = vlib.tlc_counts(out)
             st, tr = d, g
         # operation sequences on the connection table (Gen_MuxTable)
-        cfg = ("SPECIFICATION GSpec\nCONSTANTS Ids = {1, 2} MaxH = 3 MaxSent = 2 Guarded = TRUE MaxOps = %d\n"
+        cfg = ("SPECIFICATION GSpec\nCONSTANTS Ids = {1, 2} MaxH = 3 MaxSent = 3 Guarded = TRUE MaxOps = %d\n"
                "INVARIANTS OpenIsRegistered\nCHECK_DEADLOCK FALSE\n" % (6 if th else 5))
         rc, out = vlib.run_tlc(sc.sub("gen-muxtable"), "Gen_MuxTable", cfg, workers=4, timeout=1200)
         if "No error has been found" not in out:
